@@ -1504,6 +1504,23 @@ func localTypes(p *pkg, fd *ast.FuncDecl) map[string]Type {
 						}
 					}
 				}
+				// `a, b, _, err := x.M()` / `a, b := f()` with M / f declared (under one name only) in this package:
+				// each integer-typed declared result gives the type of the corresponding local
+				if len(x.Lhs) > 1 && len(x.Rhs) == 1 {
+					if c, ok := x.Rhs[0].(*ast.CallExpr); ok {
+						if rts := declaredResults(p, fd, c.Fun); len(rts) == len(x.Lhs) {
+							for i, l := range x.Lhs {
+								if id, ok := l.(*ast.Ident); ok && id.Name != "_" {
+									if ty, ok := p.lookupType(exprText(p.fset, rts[i])); ok {
+										if _, have := m[id.Name]; !have {
+											m[id.Name] = ty
+										}
+									}
+								}
+							}
+						}
+					}
+				}
 				for i, l := range x.Lhs {
 					id, ok := l.(*ast.Ident)
 					if !ok || i >= len(x.Rhs) || len(x.Lhs) != len(x.Rhs) {
@@ -1545,7 +1562,125 @@ func localTypes(p *pkg, fd *ast.FuncDecl) map[string]Type {
 	return m
 }
 
-// exprWithFields translates e, turning `x.F` on struct-typed params with integer fields and len(x) into parameters.
+// declaredResults: the flattened result type expressions of the function or method called by fun. A method call
+// `x.M()` on a local/parameter/receiver whose struct type is syntactically known resolves to that type's M;
+// otherwise exactly one declaration of the name must exist in the package (no type checker: ambiguous gives nil).
+func declaredResults(p *pkg, in *ast.FuncDecl, fun ast.Expr) []ast.Expr {
+	name := ""
+	var found *ast.FuncDecl
+	switch f := fun.(type) {
+	case *ast.Ident:
+		name = f.Name
+	case *ast.SelectorExpr:
+		name = f.Sel.Name
+		if id, ok := f.X.(*ast.Ident); ok {
+			if tn, ok := structVars(p, in)[id.Name]; ok {
+				found = findFunc(p, tn, name)
+			}
+		}
+	}
+	if name == "" {
+		return nil
+	}
+	if found == nil {
+		for _, f := range p.files {
+			for _, d := range f.Decls {
+				if fd, ok := d.(*ast.FuncDecl); ok && fd.Name.Name == name {
+					if found != nil {
+						return nil
+					}
+					found = fd
+				}
+			}
+		}
+	}
+	if found == nil || found.Type.Results == nil {
+		return nil
+	}
+	var out []ast.Expr
+	for _, f := range found.Type.Results.List {
+		n := len(f.Names)
+		if n == 0 {
+			n = 1
+		}
+		for i := 0; i < n; i++ {
+			out = append(out, f.Type)
+		}
+	}
+	return out
+}
+
+// structVars: receiver, parameters and locals of fd whose type is a struct of the package (name -> struct type).
+func structVars(p *pkg, fd *ast.FuncDecl) map[string]string {
+	m := structLocals(p, fd)
+	add := func(fl *ast.FieldList) {
+		if fl == nil {
+			return
+		}
+		for _, f := range fl.List {
+			tn := strings.TrimPrefix(exprText(p.fset, f.Type), "*")
+			if _, ok := p.strct[tn]; ok {
+				for _, nm := range f.Names {
+					m[nm.Name] = tn
+				}
+			}
+		}
+	}
+	add(fd.Recv)
+	add(fd.Type.Params)
+	return m
+}
+
+// structLocals: locals bound to a struct of the package by `x := T{…}`, `x := &T{…}`, `x := new(T)` or `var x T`.
+func structLocals(p *pkg, fd *ast.FuncDecl) map[string]string {
+	m := map[string]string{}
+	ast.Inspect(fd.Body, func(n ast.Node) bool {
+		switch x := n.(type) {
+		case *ast.AssignStmt:
+			if x.Tok != token.DEFINE || len(x.Lhs) != len(x.Rhs) {
+				return true
+			}
+			for i, l := range x.Lhs {
+				id, ok := l.(*ast.Ident)
+				if !ok {
+					continue
+				}
+				r := x.Rhs[i]
+				if u, ok := r.(*ast.UnaryExpr); ok && u.Op == token.AND {
+					r = u.X
+				}
+				tn := ""
+				switch v := r.(type) {
+				case *ast.CompositeLit:
+					if v.Type != nil {
+						tn = exprText(p.fset, v.Type)
+					}
+				case *ast.CallExpr:
+					if f, ok := v.Fun.(*ast.Ident); ok && f.Name == "new" && len(v.Args) == 1 {
+						tn = exprText(p.fset, v.Args[0])
+					}
+				}
+				if _, ok := p.strct[tn]; ok {
+					m[id.Name] = tn
+				}
+			}
+		case *ast.ValueSpec:
+			if x.Type != nil {
+				tn := strings.TrimPrefix(exprText(p.fset, x.Type), "*")
+				if _, ok := p.strct[tn]; ok {
+					for _, nm := range x.Names {
+						m[nm.Name] = tn
+					}
+				}
+			}
+		}
+		return true
+	})
+	return m
+}
+
+// exprWithFields translates e, turning `x.F` on struct-typed params (and struct-typed locals) with integer fields
+// and len(x) into parameters.
 func (t *tr) exprWithFields(e ast.Expr, fd *ast.FuncDecl) (string, Type) {
 	// struct typed params
 	structParams := map[string]string{}
@@ -1564,6 +1699,11 @@ func (t *tr) exprWithFields(e ast.Expr, fd *ast.FuncDecl) (string, Type) {
 	}
 	add(fd.Recv)
 	add(fd.Type.Params)
+	for nm, tn := range structLocals(t.p, fd) {
+		if _, have := structParams[nm]; !have {
+			structParams[nm] = tn
+		}
+	}
 	// rewrite selectors / len calls into fresh identifiers
 	var rewrite func(n ast.Expr) ast.Expr
 	rewrite = func(n ast.Expr) ast.Expr {
